@@ -107,7 +107,9 @@ def bstep (m : BMon) (ts : List String) : BMon × String :=
     let faultHits := k ≥ 1 && k ≤ m.size
     let memHits := k < m.size
     match calls with
-    | none => (m, "reject bad-output missing calls")
+    | none =>
+      if ret == "skipped-after-hangs" then (m, "reject hang-skipped not run: the harness already saw 6 hangs in this process")
+      else (m, "reject bad-output missing calls")
     | some calls =>
       if ret == "hang" then (m, "reject hang BreadthFirst did not return") else
       if ret == "panic" then (m, "reject panic BreadthFirst panicked") else
